@@ -864,7 +864,7 @@ func (h *c14H) exec(op *c14Op) string {
 			status = "present"
 		}
 		if to := h.syncSpawns(before); to != "" {
-			status = to
+			status += "+" + to
 		}
 		return h.observe(status, from)
 	case "wp":
@@ -907,7 +907,7 @@ func (h *c14H) exec(op *c14Op) string {
 			}
 		}
 		if to := h.syncSpawns(before); to != "" {
-			status = to
+			status += "+" + to
 		}
 		return h.observe(status, from)
 	case "fin":
@@ -980,7 +980,7 @@ func (h *c14H) exec(op *c14Op) string {
 			return h.observe("stop", from)
 		}
 		if to := h.syncSpawns(before); to != "" {
-			status = to
+			status += "+" + to
 		}
 		return h.observe(status, from)
 	case "timing":
